@@ -404,7 +404,8 @@ pub fn run_history(steps: &[Step], o: &HistOpts, report: &mut Report, case_id: &
                 let dry = real_backup(&scratch, &src, &params, IceptConfig::default());
                 let _ = fs::remove_dir_all(&scratch);
                 let n = dry.steps.max(1);
-                let k = ((*num as usize) * n / (*den as usize)).min(n - 1);
+                // `den == 0`: `num` is the micro-step itself (directed histories)
+                let k = if *den == 0 { (*num as usize).min(n - 1) } else { ((*num as usize) * n / (*den as usize)).min(n - 1) };
                 rec.i_req = Some(run.session.push(format!("backup {} {}", params.model_args(), k)));
                 let r = real_backup(&arch, &src, &params, IceptConfig { crash_at: Some(k), ..Default::default() });
                 rec.crashed = true;
